@@ -132,6 +132,18 @@ func runAllocs(out *bufio.Writer, st *Stats, r *Rng, tier string) {
 				d := Alloc(dk, false, signal.Allocator{Channels: ch, Length: L, Capacity: L + 1})
 				cv := convCall(k, dk)
 				measure(out, st, convName(k, dk), det+"/"+dk.String(), func() { sinkInt = cv(full, d) })
+				// source and destination of a conversion are windows of one parent (same element type):
+				// disjoint halves, touching, and the destination starting inside the source
+				if L >= 8 {
+					cvSame := convCall(k, k)
+					par := Alloc(k, false, signal.Allocator{Channels: ch, Length: L, Capacity: L})
+					s0, d0 := par.Slice(0, L/2), par.Slice(L/2, L)
+					measure(out, st, convName(k, k), det+"/same-parent-disjoint", func() { sinkInt = cvSame(s0, d0) })
+					sA, dA := par.Slice(0, L-2), par.Slice(2, L)
+					measure(out, st, convName(k, k), det+"/same-parent-dst-inside-src", func() { sinkInt = cvSame(sA, dA) })
+					sB, dB := par.Slice(2, L), par.Slice(0, L-2)
+					measure(out, st, convName(k, k), det+"/same-parent-src-inside-dst", func() { sinkInt = cvSame(sB, dB) })
+				}
 				// append within capacity: one frame per run, into a window with spare capacity and
 				// into a buffer that is exactly filled at the end
 				one := Alloc(k, false, signal.Allocator{Channels: ch, Length: 1, Capacity: 1})
